@@ -510,6 +510,9 @@ pub fn corner_files() -> Vec<(Cfg, Vec<Entry>)> {
         cf.level = level;
         v.push((cf, (0..8u32).map(|i| ((i * 2).to_be_bytes().to_vec(), value_for(i + 1, 300))).collect()));
     }
+    // configuration values at the top of their domains
+    v.push((c(0, usize::MAX, usize::MAX, 1), (0..300u32).map(|i| ((i * 2).to_be_bytes().to_vec(), value_for(i + 1, 50))).collect()));
+    v.push((c(5, 1 << 40, 1, 0), (0..40u32).map(|i| (long_key(i + 1), value_for(i + 1, 100))).collect()));
     v
 }
 
